@@ -173,6 +173,22 @@ CLAIMED = {
              'Proved for the code after fix 8f9830c (from_json dropped log_id, extra_data and command_status). No axioms.',
         technique='Coq proof: generic record round trip over a class table + table facts by evaluation; differential correspondence incl. malformed stream',
         design='6 (C12)'),
+    'C19': dict(
+        text='Coq theorems (Props/C19.v) over an executable model of PersistingDict (Model/Persist.v): (1) crash atomicity - for ANY previous content, new '
+             'content, leftover temporary file and parser, every state a crash can leave during _save (before it, after the temporary file is created, '
+             'after a torn write of any prefix, after close, after the rename) loads as the state before or the state after; the truncating protocol the '
+             'code used before is refuted with a witness; (2) write-through - after ANY sequence of dictionary operations in which no in-place update is '
+             'left without a later saving operation, the file holds exactly the dictionary; (3) restart - the JSON form of all five stores (nested '
+             'messages in SegmentStatus included, any number of entries) is revived by a new instance to exactly the store saved (on top of the C12 '
+             'round-trip theorem). Tied to the code on a real directory: the I/O primitives of the real _save are compared with the model protocol; the '
+             'dictionary-level trace of every SimpleCorrelator call (in-place updates detected by snapshots) is validated and replayed in Coq; file trees '
+             'and reloaded stores are compared with the model; oracles restart after every prefix of every history and crash at every I/O primitive '
+             '(with torn writes) and require each file to load as before or after.',
+        note='Trusted: Coq kernel, atomicity of os.replace, JSON text layer, harness (simulated crash = exception at an I/O primitive, then the directory '
+             'is re-read). Crash = process death; power loss would additionally need fsync, which _save does not do (stated assumption). Proved for the '
+             'code after fixes 0dd80e4 (atomic save), 2324e37 (nested revival), 30e5325 (in-place updates saved), 8f9830c (from_json keeps tracking fields). No axioms.',
+        technique='Coq proof: crash-state enumeration of a write protocol, dirty-flag invariant over operation traces, JSON revival round trip; I/O-primitive and dictionary-level trace validation with fault injection',
+        design='6 (C19)'),
 }
 
 PENDING_REASON = 'check not built yet in this round (planned, see DESIGN.md section 6); not claimed until its proof and correspondence run exist'
